@@ -325,9 +325,10 @@ def lex_inside_filter(l: Lexer) -> Optional[StateFn]:  # noqa: D103, PLR0915, PL
 
         if c == ",":
             l.emit(TokenType.COMMA)
-            # If we have unbalanced parens, we are inside a function call and a
-            # comma separates arguments. Otherwise a comma separates selectors.
-            if l.func_call_stack:
+            # If the innermost open bracket is a parenthesis, we are inside a
+            # function call and a comma separates arguments. Otherwise a comma
+            # separates selectors, even in a query that is a function argument.
+            if l.bracket_stack and l.bracket_stack[-1][0] == "(":
                 continue
             l.filter_depth -= 1
             return lex_inside_bracketed_segment
